@@ -38,7 +38,7 @@ RULE = (
     "confirm, callback, prefetch, max_concurrent_prefetch_requests, short local source reads, fault plan = "
     "k-th WRITE/READ request (or every request) answered with SFTP error code 1..8 (reads: 2..8) or a short read); "
     "hypothesis-sampled, plus an enumeration of every single failing chunk position x every code for files of 1..N "
-    "chunks (N=2 quick, 8 thorough, sharded over the workers). non-trivial = the fault plan was actually hit "
+    "chunks (N=3 quick, 8 thorough, sharded over the workers). non-trivial = the fault plan was actually hit "
     "(server log shows the faulted request) ; distinct = SHA-1 of the case"
 )
 
@@ -382,7 +382,7 @@ def run(ctx):
     ctx.set_budget(70, 1500)
     ctx.assume("SFTP_EOF is not injected as a read fault: an EOF status legitimately ends the file for the client")
     ctx.assume("same-size data corruption and writes acknowledged but not performed are outside the fault model (SFTP writes are all-or-error)")
-    max_chunks = 2 if ctx.quick else 8
+    max_chunks = 3 if ctx.quick else 8
     cases = baseline_cases(ctx.quick) + enumerated(max_chunks)
     mine = [c for i, c in enumerate(cases) if i % ctx.nworkers == ctx.worker]
     done = 0
@@ -395,7 +395,7 @@ def run(ctx):
     ctx.note("enumerated_cases", done)
     if not ctx.quick:
         ctx.exhaustive = done == len(mine)
-    _explore(ctx, case_st(), lambda c: execute(ctx, c), ctx.scale(200, 4000))
+    _explore(ctx, case_st(), lambda c: execute(ctx, c), ctx.scale(250, 4000))
 
 
 def replay(ctx, case):
